@@ -110,7 +110,10 @@ Plain(n, t) == Field(n, t, "none", "mark")
 
 ObjectDecl(n, fields) == [kind |-> "object", name |-> n, fields |-> fields, nested |-> <<>>]
 OneofDecl(n, fields) == [kind |-> "oneof", name |-> n, fields |-> fields]
-EnumDecl(n, options, unspec, prefix) == [kind |-> "enum", name |-> n, options |-> options, unspec |-> unspec, prefix |-> prefix]
+\* info: the keys of the info map carried by every option of the enum (P schema.proto Enum.Option.info); the compiled
+\* value annotation is a protobuf map, so more than one key exercises the order in which maps are written (C14, C05)
+EnumDecl(n, options, unspec, prefix) == [kind |-> "enum", name |-> n, options |-> options, unspec |-> unspec, prefix |-> prefix, info |-> <<>>]
+InfoKeys == <<"delta", "alpha", "gamma", "beta", "epsilon">>
 ServiceDecl(n, basePath, methods) == [kind |-> "service", name |-> n, basePath |-> basePath, methods |-> methods]
 Method(n, verb, path, request, hasResponse, response) ==
     [name |-> n, verb |-> verb, path |-> path, request |-> request, hasResponse |-> hasResponse, response |-> response]
@@ -435,6 +438,7 @@ DeclChoices(b, c, n) ==
              [e |-> EnumDecl(nm, <<>>, TRUE, ""), rich |-> 1, label |-> "enum-explicit-unspecified"],
              \* P schema.proto Enum.prefix
              [e |-> EnumDecl(nm, <<"FIRST">>, FALSE, IF prefixFree THEN "PFX_" ELSE "PFX_" \o ScreamingSnake(nm) \o "_"), rich |-> 1, label |-> "enum-prefix"],
+             [e |-> [EnumDecl(nm, <<"FIRST">>, FALSE, "") EXCEPT !.info = InfoKeys], rich |-> 1, label |-> "enum-option-info"],
              [e |-> ServiceDecl(nm, "/" \o ShortOf(pk.name) \o "/v1", <<>>), rich |-> 1, label |-> "service"],
              [e |-> ServiceDecl(nm, "", <<>>), rich |-> 1, label |-> "service-no-basepath"],
              \* R "Topics": publish / reqres / upsert
